@@ -18,7 +18,7 @@ ASSUMPTIONS = ['no schedule dimension']
 PROBES = []
 PLAN = {
   'quick': {'strata': {'builds': 1500, 'late-registration': 700}, 'wall_s': 300, 'chunk': 25, 'min_conclusive': 300},
-  'thorough': {'strata': {'builds': 40000, 'late-registration': 20000}, 'wall_s': 900, 'chunk': 100, 'min_conclusive': 3000},
+  'thorough': {'strata': {'builds': 40000, 'late-registration': 20000}, 'wall_s': 900, 'chunk': 100, 'min_conclusive': 300},
 }
 
 VARIANTS = [
